@@ -188,6 +188,32 @@ def handle (j : Json) : Except String Json := do
       ("any_raise", Json.bool (QState.anyRaise rd s0 ops)),
       ("last_write", match lastWrite ops with | none => Json.null | some v => ratToJson v),
       ("init_eff", ratToJson (s0.eff rd))]
+  | "compiled" =>
+    -- one quantizer + one compiled function wrapping its call (CState.step): ops are the
+    -- single-quantizer ops (eager) and {"op":"ccall"}; per step the quantizer state, what the
+    -- traced graph holds, and the factor storage the compiled function computes with
+    let s0 ← qstateOfJson (← j.getObjVal? "init")
+    let opsJ ← (← j.getObjVal? "ops").getArr?
+    let ops ← opsJ.toList.mapM fun o => do
+      match ← getStr o "op" with
+      | "ccall" => pure COp.ccall
+      | _ => pure (COp.eager (← opOfJson o))
+    let mut c : CState := ⟨s0, none⟩
+    let mut out : Array Json := #[]
+    for o in ops do
+      c := c.step rd o
+      let cs := c.cstore rd
+      let capJ : List (String × Json) := match c.cap with
+        | none => [("cap", Json.str "none")]
+        | some (.const v) => [("cap", Json.str "const"), ("cap_v", ratToJson v)]
+        | some .live => [("cap", Json.str "live")]
+        | some (.stale v) => [("cap", Json.str "stale"), ("cap_v", ratToJson v)]
+      out := out.push (Json.mkObj (qstateToJson c.q ++ capJ ++
+        [("eff", ratToJson (c.q.eff rd)), ("ceff", ratToJson (c.ceff rd)),
+         ("cstore", Json.str (if cs.isVar then "var" else "py")), ("cstore_v", ratToJson cs.raw)]))
+    pure <| Json.mkObj [("steps", Json.arr out),
+      ("last_write", match lastWrite (eagerOps ops) with | none => Json.null | some v => ratToJson v),
+      ("init_eff", ratToJson (s0.eff rd))]
   | "multi" =>
     -- several quantizers + caller-owned variables, interleaved history (Sys.step); per step the
     -- state of every quantizer and variable; at the end, per quantizer, the last value written to
